@@ -80,6 +80,16 @@ fn moderate() -> BoxedStrategy<u64> {
     .boxed()
 }
 
+/// the whole special-value lattice except NaN (the documentation leaves NaN propagation of min / max / clamp and the
+/// horizontal reductions backend-specific): signed zeros, subnormals, infinities, huge values, ties, values >= 2^31
+fn special_finite() -> BoxedStrategy<u64> {
+    prop_oneof![
+        50 => lattice::lat_f32().prop_map(|w| if f32::from_bits(w as u32).is_nan() { 0x7f80_0000 | (w & 0x8000_0000) } else { w }),
+        50 => moderate(),
+    ]
+    .boxed()
+}
+
 #[inline]
 fn f(w: u64) -> f32 {
     f32::from_bits(w as u32)
@@ -151,7 +161,8 @@ fn describe(o: &CObs) -> String {
 }
 
 /// Compare the test backend's observation with the reference's, given the reference's observations on perturbed inputs.
-fn compare(t: &CObs, r: &CObs, pert: &[Result<CObs, String>], extra_abs: f64, exact: bool) -> Verdict {
+fn compare(t: &CObs, r: &CObs, pert: &[Result<CObs, String>], extra_abs: f64, exact_cls: u8) -> Verdict {
+    let exact = exact_cls > 0;
     if t.strs != r.strs {
         return Verdict::Bad(format!("formatted output differs: {:?} vs reference {:?}", t.strs, r.strs));
     }
@@ -212,7 +223,7 @@ fn compare(t: &CObs, r: &CObs, pert: &[Result<CObs, String>], extra_abs: f64, ex
                 if a.is_nan() && b.is_nan() {
                     continue;
                 }
-                if a == b {
+                if a == b && exact_cls < 2 {
                     continue; // -0 vs +0
                 }
                 let g = r.g[i] as usize;
@@ -261,7 +272,7 @@ fn compare(t: &CObs, r: &CObs, pert: &[Result<CObs, String>], extra_abs: f64, ex
 
 /// Element-wise operations and pure data moves: one rounding per element in every backend and no additions to
 /// re-associate, so the slack the statement grants is zero and the backends must agree as IEEE values.
-fn exact_class(e: &ApiInfo) -> bool {
+fn exact_class_bool(e: &ApiInfo) -> bool {
     const ELEMENTWISE_TYPES: [&str; 6] = ["Vec3A", "Vec4", "f32", "BVec3A", "BVec4A", "Vec3"];
     let toks: Vec<&str> = e.sig.split(|c: char| !c.is_alphanumeric()).filter(|t| !t.is_empty()).collect();
     if e.kind == 1 {
@@ -303,6 +314,21 @@ fn exact_class(e: &ApiInfo) -> bool {
     EXACT.contains(&e.name) || e.name.starts_with("as_")
 }
 
+/// 0 = tolerance class, 1 = element-wise, must agree as IEEE values (the SSE2 rounding family returns +0 where the
+/// primitive returns -0, which the statement's value equality admits), 2 = IEEE arithmetic and data moves, whose
+/// results are fully determined including the sign of zero: must agree bit for bit (all NaNs identified).
+fn exact_class(e: &ApiInfo) -> u8 {
+    if !exact_class_bool(e) {
+        return 0;
+    }
+    const VALUE_ONLY: [&str; 19] = ["min", "max", "clamp", "min_element", "max_element", "floor", "ceil", "round", "trunc", "fract", "fract_gl", "div_euclid", "rem_euclid", "exp", "powf", "Rem", "RemAssign", "signum", "map"];
+    if VALUE_ONLY.contains(&e.name) || e.name == "fmt::Display" || e.name == "fmt::Debug" {
+        1
+    } else {
+        2
+    }
+}
+
 /// documented approximation differences between backends get an absolute allowance (DESIGN.md section 4)
 fn extra_abs(e: &ApiInfo) -> f64 {
     if e.ty == "Quat" && (e.name == "slerp" || e.name == "rotate_towards") {
@@ -326,8 +352,8 @@ fn step(test: RunFn, reference: RunFn, api: &[ApiInfo], id: u32, args: &[u64], p
     };
     let mut pert: Vec<Result<CObs, String>> = (0..10u64).map(|p| reference(id, &perturb(args, &kinds, p, pseed), None)).collect();
     let exact = exact_class(e);
-    if exact {
-        t.class_n("exact-class-ops", 1);
+    if exact > 0 {
+        t.class_n(if exact == 2 { "exact-class-ops (bitwise)" } else { "exact-class-ops (IEEE value)" }, 1);
     }
     let mut v = compare(&tt, &r, &pert, extra_abs(e), exact);
     if let Verdict::Bad(_) = v {
@@ -650,7 +676,9 @@ fn main() {
                 env.tally.notes.insert("api_entries_compared".into(), json!(nids));
                 let chk = single_check(test, scalar::run, tapi, ids, pair);
                 for idx in r {
-                    let st = (any::<u32>(), proptest::collection::vec(moderate(), NW)).prop_map(move |(ps, a)| {
+                    // element-wise / data-move operations need no conditioning analysis: they also get special (non-NaN) operands
+                    let words = if exact_class(&tapi[ids[idx as usize] as usize]) > 0 { special_finite() } else { moderate() };
+                    let st = (any::<u32>(), proptest::collection::vec(words, NW)).prop_map(move |(ps, a)| {
                         let mut v = vec![idx, ps as u64];
                         v.extend(a);
                         v
